@@ -69,7 +69,7 @@ def run_nfa(case):
     N = B.mk_nfa(spec)
     before = B.canon(spec)
     L = G.word_bound(spec["S"], cap=70)
-    ws = G.all_words(spec["S"], L) + list(case.get("words", []))
+    ws = list(case["words"]) if case.get("only_words") else G.all_words(spec["S"], L) + list(case.get("words", []))
     acc = 0
     for w in ws:
         got = lib(nfa_accepts_word, N, w)
@@ -79,8 +79,8 @@ def run_nfa(case):
         acc += want
     if B.snap_nfa(N) != before:
         raise Fail("nfa_accepts_word_mutates", "argument NFA changed")
-    cls = _nfa_classes(spec)
-    nt = len(spec["Q"]) >= 2 and ("has_eps" in cls or "nondet" in cls) and 0 < acc < len(ws)
+    cls = _nfa_classes(spec) if len(spec["Q"]) <= 50 else ["large"]
+    nt = len(spec["Q"]) >= 2 and ("has_eps" in cls or "nondet" in cls or "large" in cls) and 0 < acc < len(ws)
     return {"nt": nt, "cls": cls, "out": {"words": len(ws), "accepted": acc}}
 
 
@@ -130,15 +130,33 @@ def eclose_cases(draw, tier):
     return {"nfa": spec, "subsets": subs}
 
 
+def large_nfas(tier):
+    """Long symbol chains and eps-chains (300..2500 states) with the words that reach their accepting states."""
+    for i, n in enumerate([300, 1100] if tier == "quick" else [300, 1100, 2500]):
+        Q = ["q%d" % k for k in range(n)]
+        eps = ["", "ε"][i % 2]
+        chain = {"Q": Q, "S": ["a"], "d": [[Q[k], "a", Q[k + 1]] for k in range(n - 1)], "q0": Q[0], "F": [Q[n - 1], Q[n // 2]], "eps": eps, "rep": "dd_set"}
+        yield {"nfa": chain, "words": ["", "a" * (n // 2), "a" * (n - 1), "a" * (n - 2), "a" * n], "only_words": True}
+        echain = {"Q": Q, "S": ["a"], "d": [[Q[k], eps, Q[k + 1]] for k in range(n - 1)] + [[Q[n - 1], "a", Q[1]]], "q0": Q[0], "F": [Q[n // 3]], "eps": eps, "rep": "dd_lambda"}
+        yield {"nfa": echain, "words": ["", "a", "aaa"], "only_words": True}
+
+
 def ex_nfa(tier):
     if tier == "quick":
-        return ("all NFAs with 2 states over {a} with eps-moves, all words <= 6", ({"nfa": s, "words": []} for s in G.all_nfas(2, ["a"])))
+        def genq():
+            for s in G.all_nfas(2, ["a"]):
+                yield {"nfa": s, "words": []}
+            for c in large_nfas(tier):
+                yield c
+        return ("all NFAs with 2 states over {a} with eps-moves, all words <= 6; plus chains / eps-chains of 300 and 1100 states", genq())
     def gen():
         for s in G.all_nfas(2, ["a"]):
             yield {"nfa": s, "words": []}
         for s in G.all_nfas(2, ["a", "b"], eps=""):
             yield {"nfa": s, "words": []}
-    return ("all NFAs with 2 states over {a} and over {a,b} with eps-moves (1024 + 16384), all words up to the bound", gen())
+        for c in large_nfas(tier):
+            yield c
+    return ("all NFAs with 2 states over {a} and over {a,b} with eps-moves (1024 + 16384), all words up to the bound; plus chains / eps-chains of 300..2500 states", gen())
 
 
 def ex_dfa(tier):
@@ -161,4 +179,7 @@ CLAUSES = [
            rule="random NFA specs; epsilon_closure and NFA.E for every state and generated subsets; non-trivial: a closure of size >= 3 or an eps-cycle"),
 ]
 
+from props import workbench as WB   # noqa: E402
+
+CLAUSES.append(Clause("object_history", lambda tier: WB.fa_programs(tier, "accept"), WB.run_fa, quick=500, thorough=5000, rule=WB.FA_RULE))
 KNOWN_PREDICATES = {}
